@@ -531,9 +531,8 @@ Proof.
   unfold derive, derived. destruct (c_kind c); intro H.
   - reflexivity.
   - unfold derive_network. apply get_setS_other. apply field_beq_false. exact H.
-  - apply orb_false_iff in H. destruct H as [H H3]. apply orb_false_iff in H. destruct H as [H1 H2].
+  - apply orb_false_iff in H. destruct H as [H1 H2].
     unfold derive_netconf. rewrite get_setS_other by (apply field_beq_false; exact H1).
-    rewrite get_setN_other by (apply field_beq_false; exact H3).
     destruct (exists_obj c OSSHArgs); [|reflexivity].
     apply get_setB_other. apply field_beq_false. exact H2.
 Qed.
@@ -588,7 +587,6 @@ Qed.
 
 Theorem derived_netconf opts s : build Netconf opts = Ok s ->
   get (FS FPromptPattern) s = VS rx_ncd_v1Dot0Delim_src
-  /\ get (FN FLogger) s = VN 0
   /\ (exists_obj (ctx_of Netconf opts) OSSHArgs = true -> get (FB FNetconfConnection) s = VB true).
 Proof.
   intros H. apply build_ok_iff in H. destruct H as [_ ->]. unfold spec, derive. rewrite ctx_of_kind.
@@ -750,13 +748,12 @@ Lemma in_modelled_platform n : In n modelled_platform_options ->
   \/ n = open_args_name.
 Proof. unfold modelled_platform_options. simpl. intuition. Qed.
 
-(* every recognised name other than transport-system-open-args, with a value of its documented
-   type, becomes an option (no panic) *)
-Theorem platform_option_typed n v : In n modelled_platform_options -> n <> open_args_name ->
+(* every recognised name with a value of its documented type becomes an option (no panic) *)
+Theorem platform_option_typed n v : In n modelled_platform_options ->
   well_typed (n, v) = true -> exists o, platform_option n v = Ok o.
 Proof.
-  intros Hin Hne. apply in_modelled_platform in Hin.
-  repeat (destruct Hin as [->|Hin]); try (subst n; congruence);
+  intros Hin. apply in_modelled_platform in Hin.
+  repeat (destruct Hin as [->|Hin]); try subst n;
     destruct v; vm_compute; intro; try discriminate; eexists; reflexivity.
 Qed.
 
@@ -767,13 +764,14 @@ Theorem platform_option_effect :
   /\ platform_option (bs "timeout-ops") (YFloat4 8) = Ok (WithTimeoutOps 2000000000)
   /\ platform_option (bs "return-char") (YStr [13; 10]) = Ok (WithReturnChar [13; 10])
   /\ platform_option (bs "auth-bypass") (YBool true) = Ok WithAuthBypass
-  /\ platform_option (bs "auth-strict-key") (YBool false) = Ok WithAuthNoStrictKey.
+  /\ platform_option (bs "auth-strict-key") (YBool false) = Ok WithAuthNoStrictKey
+  /\ (forall l, platform_option open_args_name (YSeq l) = Ok (WithSystemTransportOpenArgs l)).
 Proof. repeat split; vm_compute; reflexivity. Qed.
 
-(* REFUTED part of the property: the documented type of transport-system-open-args is a list of
-   strings, and with ANY YAML value the assertion `.([]string)` fails: panic *)
-Theorem open_args_panics v : platform_option open_args_name v = Panic.
-Proof. vm_compute. reflexivity. Qed.
+(* transport-system-open-args with anything but a sequence of strings still panics (before the
+   fix of finding F12 it panicked with EVERY value) *)
+Theorem open_args_illtyped_panics v : (forall l, v <> YSeq l) -> platform_option open_args_name v = Panic.
+Proof. intros H. destruct v; try (vm_compute; reflexivity). exfalso. exact (H l eq_refl). Qed.
 
 Lemma platform_options_no_err defs e : platform_options defs <> Err e.
 Proof.
@@ -799,21 +797,21 @@ Proof.
         try discriminate; destruct v'; discriminate.
 Qed.
 
-Theorem platform_open_args_panics p user v : In (open_args_name, v) (pd_options p) ->
-  build_platform p user = Panic.
+Theorem platform_open_args_illtyped_panics p user v : In (open_args_name, v) (pd_options p) ->
+  (forall l, v <> YSeq l) -> build_platform p user = Panic.
 Proof.
-  intros Hin. unfold build_platform, platform_opts.
-  rewrite (platform_options_panic _ _ _ Hin (open_args_panics v)). reflexivity.
+  intros Hin Hv. unfold build_platform, platform_opts.
+  rewrite (platform_options_panic _ _ _ Hin (open_args_illtyped_panics v Hv)). reflexivity.
 Qed.
 
 Theorem platform_typed_ok defs :
-  (forall d, In d defs -> In (fst d) modelled_platform_options /\ fst d <> open_args_name /\ well_typed d = true) ->
+  (forall d, In d defs -> In (fst d) modelled_platform_options /\ well_typed d = true) ->
   exists os, platform_options defs = Ok os /\ length os = length defs.
 Proof.
   induction defs as [|[n v] t IH]; intros H; simpl.
   - exists []. auto.
-  - destruct (H (n, v) (or_introl eq_refl)) as (Hin & Hne & Hty). simpl in Hin, Hne.
-    destruct (platform_option_typed n v Hin Hne Hty) as [o ->]. cbn [bind].
+  - destruct (H (n, v) (or_introl eq_refl)) as (Hin & Hty). simpl in Hin.
+    destruct (platform_option_typed n v Hin Hty) as [o ->]. cbn [bind].
     destruct (IH (fun d Hd => H d (or_intror Hd))) as (os & -> & Hl). cbn [bind].
     exists (o :: os). simpl. auto.
 Qed.
@@ -833,8 +831,9 @@ Example ex_generic :
 Proof. vm_compute. repeat split. Qed.
 
 Example ex_netconf :
-  match build Netconf ex_opts with
+  match build Netconf (WithLogger 3 :: ex_opts) with
   | Ok s => getN FPort s = 2022 /\ getS FPreferredVersion s = bs "1.1" /\ getB FNetconfConnection s = true
+            /\ getN FLogger s = 3
             /\ getS FPromptPattern s = rx_ncd_v1Dot0Delim_src
   | _ => False
   end.
@@ -858,9 +857,10 @@ Proof. vm_compute. reflexivity. Qed.
 
 Example ex_platform :
   let p := mkPdef Network [bs "% Error"] true false [bs "^a>$"; bs "^a#$"] (bs "p0") true false
-                  [(bs "port", YInt 23); (bs "timeout-ops", YFloat4 8); (bs "return-char", YStr [13; 10])] in
-  match build_platform p [WithPort 2022; WithOnOpen 1] with
-  | Ok s => getN FPort s = 2022 /\ getN FOnOpen s = 1 /\ getN FNetOnOpen s = platform_tag
+                  [(bs "port", YInt 23); (bs "timeout-ops", YFloat4 8); (bs "return-char", YStr [13; 10]);
+                   (open_args_name, YSeq [bs "-o"; bs "A=b"])] in
+  match build_platform p [WithPort 2022; WithOnOpen 1; WithSystemTransportOpenArgs [bs "-v"]] with
+  | Ok s => getN FPort s = 2022 /\ getL FExtraArgs s = [bs "-o"; bs "A=b"; bs "-v"] /\ getN FOnOpen s = 1 /\ getN FNetOnOpen s = platform_tag
             /\ getN FTimeoutOps s = 2000000000 /\ getS FReturnChar s = [13; 10]
             /\ getS FPromptPattern s = bs "^a>$|^a#$"
   | _ => False
